@@ -321,9 +321,12 @@ func C03(r *ev.Run) {
 // C12: a frame corrupted in payload/CRC is discarded alone.
 func C12(r *ev.Run) {
 	thorough := r.Tier == "thorough"
-	r.Rule = "streams of 3 segments (valid frames / D3-free junk) with the victim frame in each position; victim payload lengths 1,2,4,22,64,255 (thorough adds 1023); corruptions of payload+CRC only: every single-bit flip, every adjacent 2-bit flip, every byte overwritten with 00, FF, D3 and original^0x80, plus every pair of bytes (first/last payload byte, each CRC byte) set to D3; only CRC-breaking corruptions are kept; expected = uncorrupted delivery with the victim replaced by one non-RTCM message of exactly its bytes. Non-trivial = every case (each has a corrupted victim); distinct = distinct streams"
+	r.Rule = "streams of 3 segments (valid frames / D3-free junk) with the victim frame in each position; victim payload lengths 1,2,4,22,64,255 (thorough adds 1023); corruptions of payload+CRC only: every single-bit flip, every adjacent 2-bit flip, every byte overwritten with 00, FF, D3 and original^0x80, plus every pair of bytes (first/last payload byte, each CRC byte) set to D3; only CRC-breaking corruptions are kept; expected = uncorrupted delivery with the victim replaced by one non-RTCM message of exactly its bytes; for streams without junk merging the time text, timestamp and error text of every other message must also equal those of the uncorrupted delivery (neighbours include header-only MSM frames of GPS, BeiDou and GLONASS). Non-trivial = every case (each has a corrupted victim); distinct = distinct streams"
 	frames, junk := c03Menu(thorough)
-	neigh := []namedSeg{frames[0], frames[2], frames[12], junk[2], junk[0]}
+	msmGPS := namedSeg{"F1077/22-header", ref.HeaderOnlyMSM(1077, 5000), "frame"}
+	msmBDS := namedSeg{"F1124/22-header", ref.HeaderOnlyMSM(1124, 5000), "frame"}
+	msmGLO := namedSeg{"F1087/22-header", ref.HeaderOnlyMSM(1087, 1<<27|5000), "frame"}
+	neigh := []namedSeg{frames[0], frames[2], frames[12], junk[2], junk[0], msmGPS, msmBDS, msmGLO}
 	vlens := []int{1, 2, 4, 22, 64, 255}
 	if thorough {
 		vlens = append(vlens, 1023)
@@ -347,8 +350,28 @@ func C12(r *ev.Run) {
 	}
 	parallelFor(len(jobs), func(i int) {
 		jb := jobs[i]
-		t := []int{1077, 1005, 1124}[jb.L%3]
+		t := []int{1077, 1005, 1124, 1087}[jb.L%4]
 		victim := ref.TypedFrame(t, jb.L, validTimestampFill)
+		if jb.L == 22 {
+			// a complete MSM header with the same timestamp as the MSM neighbours, so
+			// that the uncorrupted stream never crosses a roll-over
+			ts := uint(5000)
+			if t == 1087 {
+				ts = 1<<27 | 5000
+			}
+			if t != 1005 {
+				victim = ref.HeaderOnlyMSM(t, ts)
+			}
+		}
+		// time fields of the uncorrupted delivery, for the differential clause
+		cleanTimes := func(parts []namedSeg) []string {
+			var s []byte
+			for _, p := range parts {
+				s = append(s, p.Bytes...)
+			}
+			out, _ := implStreamFull(s)
+			return out
+		}
 		var n int64
 		try := func(cor []byte, how string) {
 			if ref.IsFrame(cor) {
@@ -395,6 +418,26 @@ func C12(r *ev.Run) {
 				r.Violate(ev.Violation{Fingerprint: "C12 stream " + fault, What: fault,
 					Case: map[string]interface{}{"stream": ev.FullHex(s), "corruption": how, "expected_segments": showSegs(want)}, ReplayKind: "stream-expected"})
 				return
+			}
+			// "every other segment is delivered exactly as it would have been": the
+			// time text and error text of the other messages too, not only their bytes
+			// (only when the uncorrupted stream is time-consistent: the victim is not
+			// an MSM, or carries the same timestamp as the MSM neighbours)
+			if segsEqual(got, want) && (t == 1005 || jb.L == 22) {
+				clean := append([]namedSeg{}, parts...)
+				vi := jb.pos
+				clean[vi] = namedSeg{"victim-intact", victim, "frame"}
+				ct := cleanTimes(clean)
+				dt, _ := implStreamFull(s)
+				if len(ct) == len(dt) {
+					for k := range ct {
+						if k != vi && ct[k] != dt[k] && len(want) == len(parts) {
+							r.Violate(ev.Violation{Fingerprint: "C12 neighbour-fields-changed-by-the-corrupted-frame", What: fmt.Sprintf("segment %d: %q without the corruption, %q with it (%s)", k, ct[k], dt[k], how),
+								Case: map[string]interface{}{"stream": ev.FullHex(s), "corruption": how, "victim_position": jb.pos, "expected_segments": showSegs(want)}, ReplayKind: "stream-expected"})
+							break
+						}
+					}
+				}
 			}
 			if !segsEqual(got, want) {
 				kind := "neighbour-affected"
